@@ -290,9 +290,11 @@ def loadLocs (z : Zip) (rows : List Row) : List (Option Name) → Res (List Sig)
     | some n =>
       match read z n with
       | some (.sigs l) =>
-        match loadLocs z rows rest with
-        | .ok more => .ok (l.filter (inManifest rows) ++ more)
-        | .err e => .err e
+        -- since commit 6aca333: a listed location that yields no signature is an error, not silence
+        if (l.filter (inManifest rows)).isEmpty then .err .valueError
+        else match loadLocs z rows rest with
+          | .ok more => .ok (l.filter (inManifest rows) ++ more)
+          | .err e => .err e
       | _ => .err .fileNotFound
 
 /-- `ZipFileLinearIndex.load(path).signatures()` -/
@@ -304,6 +306,13 @@ def zipLoad (z : Zip) : Res (List Sig) :=
     .ok (z.flatMap fun e => match e.1, e.2 with
       | .sig ⟨_, none⟩, .sigs l => l
       | _, _ => [])
+
+/-- `ZipFileLinearIndex.load(path, use_manifest=False).signatures()`: the member NAMES ending in
+    `.sig` / `.sig.gz` are opened, in file order (the same walk as the rebuilt manifest: finding C10.4) -/
+def zipLoadNoManifest (z : Zip) : List Sig :=
+  z.flatMap fun e => match e.1, e.2 with
+    | .sig ⟨_, none⟩, .sigs l => l
+    | _, _ => []
 
 /-- the manifest a loaded zip reports -/
 def zipManifest (z : Zip) : Option (List Row) :=
@@ -643,6 +652,25 @@ def LcaDb.signatures (yieldEmpty : Bool) (db : LcaDb) : List Sig :=
     manifest location (no md5 filter). -/
 
 def sbtSave (sigs : List Sig) : Zip := (sigs.foldl ZipSaver.add { st := { zf := [], buf := none }, rows := [] }).close
+
+/-- `FSStorage.save(path, content)` (an SBT saved as `<name>.sbt.json` + `.sbt.<name>/`): same content under
+    `path` -> reuse; otherwise the first `path_n` that does not EXIST (unlike the zip storage, the content of
+    `path_n` is not compared: the same leaf can be written twice behind a different first occupant) -/
+def genNameFS (d : Zip) (md5 : Nat) (c : Content) : Name × Bool :=
+  let path := Name.sig ⟨md5, none⟩
+  match probe (read d) path c with
+  | .same => (path, false)
+  | .absent => (path, true)
+  | .differs =>
+    let n := searchFrom (fun n => (read d (.sig ⟨md5, some n⟩)).isSome) (d.length + 1) 0
+    (.sig ⟨md5, some n⟩, true)
+
+def ZipSaver.addFS (s : ZipSaver) (ss : Sig) : ZipSaver :=
+  let (st', location) := s.st.save (genNameFS s.st.zf ss.md5 (.sigs [ss])) (.sigs [ss])
+  { st := st', rows := s.rows ++ [mkRow ss (some location)] }
+
+/-- the leaf files and the manifest of an SBT saved to the file system -/
+def sbtSaveFS (sigs : List Sig) : Zip := (sigs.foldl ZipSaver.addFS { st := { zf := [], buf := none }, rows := [] }).close
 
 def sbtLoad (z : Zip) : Res (List Sig) :=
   match read z .manifest with
